@@ -54,6 +54,16 @@ WITNESS = {
             "compare on xs:double with NaN as the right operand and a finite left operand returns -2 "
             "(XMLAbstractDoubleFloat::compareValues computes (-1) * compareSpecial = -1 * INDETERMINATE), a value outside "
             "{-1, 0, 1, INDETERMINATE = 2}; the pair is incomparable"),
+    "F35": (["xsv duration " + G.hx("PY"), "pe duration " + G.hx("PT.5S")], ["1", "valid"], "f35",
+            "xs:duration accepts a designator without a number ('PY', 'P1YM', 'PTS', 'PD') and seconds without integer "
+            "digits ('PT.5S'): XMLDateTime::parseDuration calls parseInt on an empty range, which yields 0"),
+    "F36": (["cmp duration %s %s" % (G.hx("PT0.5S"), G.hx("PT0.6S"))], ["0"], "f36",
+            "compare on xs:duration ignores fractional seconds (fMilliSecond is neither added by addDuration nor compared "
+            "because fHasTime is false): PT0.5S and PT0.6S compare EQUAL"),
+    "F37": (["cmp duration %s %s" % (G.hx("-P1M"), G.hx("-P30D"))], ["0"], "f37",
+            "compare on negative xs:durations: the EQUAL shortcut runs compareOrder, whose normalize() treats the sign flag "
+            "(UTC_NEG) as a time zone and rolls the negative month/day fields into calendar fields, so -P1M and -P30D "
+            "(incomparable by 3.2.6.2) compare EQUAL"),
     "F12": (["xsv base64Binary " + G.hx("\u0141AAA"), "pe base64Binary " + G.hx("\u0141AAA"),
              "xsv base64Binary " + G.hx("AAAA\u0100!!")], ["1", "valid", "1"], "f12",
             "base64Binary narrows UTF-16 code units to bytes: a character >= U+0100 whose low byte is a base64 letter is "
@@ -188,7 +198,7 @@ def run(ctx):
             impl_only[kind] = impl_only.get(kind, 0) + 1
         if sv == "violates":
             fid = G.attribute(req, mode)
-            if i == m and fid and mode.get(WITNESS[fid][2]) == 0 and ctx.find_known(fid):
+            if (i == m or m == "unmodelled") and fid and mode.get(WITNESS[fid][2]) == 0 and ctx.find_known(fid):
                 attributed[fid] = attributed.get(fid, 0) + 1
             else:
                 nviol += 1
